@@ -67,6 +67,13 @@ def run(ctx):
                 cases.append((2, [a, c], [P(push(b) + [["op", "joinpath", [a, c], False]]),
                                           P(push(b) + [["op", "joinpath", [a], False], ["op", "joinpath", [c], False]]),
                                           P(push(b) + [["op", "div", a + "/" + c]])]))
+        # the same argument more than once (the same object for the implementation), with and without a trailing slash
+        for a, c in (("x/", "x/"), ("", ""), ("s", "s"), ("x/", "b"), ("", "a")):
+            for rep in ([a, c, a], [a, a], [c, a, c, a]):
+                chained = push(b)
+                for seg in rep:
+                    chained = chained + [["op", "joinpath", [seg], False]]
+                cases.append((5, [], [P(push(b) + [["op", "joinpath", rep, False]]), P(chained)]))
         for x in SUFFIXES:
             cases.append((4, [x], [P(push(b)), P(push(b) + [["op", "with_suffix", x, False, False]])]))
             cases.append((0, [], [P(push(b) + [["op", "with_suffix", x, False, False]])]))
